@@ -30,6 +30,8 @@ def dec? (s : String) : Option Str :=
   | '=' :: r => decGo r
   | _ => none
 
+def hexDigitL (n : Nat) : Char := if n < 10 then Char.ofNat (48 + n) else Char.ofNat (87 + n)
+
 def hexDigit (n : Nat) : Char := if n < 10 then Char.ofNat (48 + n) else Char.ofNat (55 + n)
 
 def safeByte (b : Nat) : Bool :=
@@ -127,7 +129,34 @@ def showObs (root : Str) : Obs → String
   | .moved false => "mv0"
   | .bad => "bad-op"
 
+def hexByte (b : Nat) : String := String.ofList [hexDigitL (b / 16), hexDigitL (b % 16)]
+def showHex (b : Bytes) : String := if b.isEmpty then "-" else String.join (b.map hexByte)
+
+def unhex : List Char → Option Bytes
+  | [] => some []
+  | a :: b :: r => do
+      let x ← hexVal? a
+      let y ← hexVal? b
+      let t ← unhex r
+      pure ((16 * x + y) :: t)
+  | _ => none
+
+/-- `w<hex>` (`w-` = empty write) | `s<offset>` -/
+def parseWOp? (t : String) : Option WOp :=
+  match t.toList with
+  | 'w' :: r => if r = ['-'] then some (.write []) else (unhex r).map WOp.write
+  | 's' :: r => (String.ofList r).toNat?.map WOp.seekTo
+  | _ => none
+
 def handle : List String → String
+  | "wprog" :: kind :: ops =>
+      match ops.mapM parseWOp? with
+      | some p =>
+          let flags := s!"|m{if mono 0 p then 1 else 0}|c{if complete p then 1 else 0}"
+          if kind = "ra" then showHex (raRun p) ++ flags
+          else if kind = "seq" then (match seqRun p with | some b => showHex b | none => "ERR") ++ flags
+          else "bad-op"
+      | none => "bad-op"
   | "hist" :: root :: sniffs :: steps =>
       match dec? root, steps.mapM parseOp? with
       | some root, some ops =>
